@@ -21,7 +21,7 @@ for d in sorted(glob.glob(V + "/seeded/*/")):
         rec["demo_fails_with_change"] = dm.returncode != 0
         rec["demo_passes_without"] = dc.returncode == 0
         rec["checks"] = {}
-        for pid in meta.get("detected_by", [])[:2]:
+        for pid in meta.get("detected_by", []):
             t0 = time.time()
             c = subprocess.run(["/venv/bin/python", "-m", "mc.check", pid, "--tier", "quick"], capture_output=True, text=True, cwd=V,
                                env=dict(os.environ, NFLOWS_SRC=wt, VERIF_EVIDENCE_DIR="/tmp/mut/rv_evidence"))
